@@ -24,7 +24,7 @@ import (
 // A run is 1-3 sessions in one bubble; the bubble's clock is moved to a chosen day
 // before each session (certificates are valid from/until fixed days, see certs.go).
 // Plan ops: {K:"session", A:peer kind, B:proto (0 tls, 1 dtls), C:server certificate, D:day,
-//   N:[serverName mode (0 unset, 1 matching DNS name, 2 mismatching), client certificate (0 none,
+//   N:[serverName mode (0 unset, 1 matching DNS name, 2 mismatching, 3 the address dialled in brackets, 4 another address), client certificate (0 none,
 //      1 trusted, 2 other CA, 3 expired), collector client-CA (0 unset, 1 set), peer max TLS version (1,2,3)]}
 // peer kinds: 0 real encrypted collector; 1 harness TLS server capped at a version; 2 plaintext
 // sender against an encrypted collector; 3 plaintext listener against a TLS/DTLS exporter.
@@ -35,7 +35,7 @@ func init() {
 		ID: "C18", Gen: genC18, Run: runC18, Quick: 700, Thorough: 150000,
 		Real: []string{"pkg/exporter InitExportingProcess TLS/DTLS client configuration (createClientConfig, dtls.Config)", "pkg/collector TLS server configuration (createServerConfig, client-certificate enforcement) and DTLS listener", "crypto/tls, crypto/x509, pion/dtls handshakes over the simulated network", "message path exporter -> collector for the delivered-messages clauses"},
 		Stub: []string{"OS sockets (simnet)", "wall clock (synctest bubble; moved across certificate validity windows = clock skew)", "tls.Dial's ServerName defaulting (simnet.TlsDial)", "adversarial peers: harness TLS server with capped version, plaintext sender, plaintext listener"},
-		Rule: "configuration matrix sampled by seed: server certificate {trusted, other CA, self-signed, expires day 20, valid from day 10, wrong SAN, no SAN, DNS-SAN only} x ServerName {unset, matching, mismatching} x client certificate {none, trusted, other CA, expired} x collector client-CA {set, unset} x {tls, dtls} x handshake day {0, 15, 25} x peer max version {1.1, 1.2, 1.3} x collector certificate file {leaf, leaf + issuing CA}, plus plaintext peers, re-use of one client-configuration object across sessions, and 2-3 exporting processes with different configurations (CA, name, client certificate, connection-check interval) one after the other against one long-lived collector; every session is non-trivial; distinct = distinct configuration cell sequence",
+		Rule: "configuration matrix sampled by seed: server certificate {trusted, other CA, self-signed, expires day 20, valid from day 10, wrong SAN, no SAN, DNS-SAN only} x ServerName {unset, matching, mismatching, the dialled address in brackets, another address} x client certificate {none, trusted, other CA, expired} x collector client-CA {set, unset} x {tls, dtls} x handshake day {0, 15, 25} x peer max version {1.1, 1.2, 1.3} x collector certificate file {leaf, leaf + issuing CA}, plus plaintext peers, re-use of one client-configuration object across sessions, and 2-3 exporting processes with different configurations (CA, name, client certificate, connection-check interval) one after the other against one long-lived collector; every session is non-trivial; distinct = distinct configuration cell sequence",
 	})
 }
 
@@ -80,7 +80,7 @@ func genC18(seed uint64, tier string) *plan.Plan {
 		if r.IntN(3) == 0 {
 			host = 1 // a second collector address for which no certificate of the zoo is valid
 		}
-		sn, cli := int64(r.IntN(4)), int64(r.IntN(4))
+		sn, cli := int64(r.IntN(5)), int64(r.IntN(4))
 		if reuse && r.IntN(10) < 8 {
 			sn, cli = baseSN, baseCli
 			if prev != nil && r.IntN(2) == 0 {
@@ -162,6 +162,8 @@ func c18ExpectationCA(proto, cert, day, snMode, cliCert, cliCA int, v6 bool, hos
 		e.mustRefuse, e.why = true, "server certificate is outside its validity period"
 	case snMode == 2:
 		e.mustRefuse, e.why = true, "server certificate does not match the expected name"
+	case snMode == 4:
+		e.mustRefuse, e.why = true, "the expected name is an address that the server certificate does not list"
 	case snMode == 1 && !hasDNSSAN:
 		e.mustRefuse, e.why = true, "server certificate has no matching DNS name"
 	case snMode == 3 && !hasIPSAN:
@@ -211,7 +213,7 @@ func runC18(pl *plan.Plan, out *plan.Outcome) {
 			copy(n, op.N)
 			hostB := n[4] == 1
 			kind, proto, cert, day := int(op.A), int(op.B)&1, int(op.C)%len(srvCerts), int(op.D)
-			snMode, cliCert, cliCA, maxV := int(n[0])%4, int(n[1])%4, int(n[2])&1, int(n[3])
+			snMode, cliCert, cliCA, maxV := int(n[0])%5, int(n[1])%4, int(n[2])&1, int(n[3])
 			cells += fmt.Sprintf("[%d %d %d %d %d %d %d %d %v]", kind, proto, cert, day, snMode, cliCert, cliCA, maxV, hostB)
 			for _, x := range op.F {
 				cells += fmt.Sprintf("(%d %d %d %d %d)", x.A, x.B, x.C, x.D, x.T)
@@ -245,7 +247,9 @@ func runC18(pl *plan.Plan, out *plan.Outcome) {
 			// configuration object is edited in place, it is not re-initialised): whatever the
 			// library may have stored in the object stays there.
 			// mode 3: the address itself, written the way it appears in a host:port string
-			wantName := []string{"", serverDNSName, "wrong.example", "[" + h + "]"}[snMode]
+			// mode 4: an address that is not the collector's (the collector is reached through a forwarded
+			// port and the certificate is to be that of the machine behind it); no certificate of the zoo lists it
+			wantName := []string{"", serverDNSName, "wrong.example", "[" + h + "]", map[bool]string{false: "10.10.10.10", true: "fd00::99"}[v6]}[snMode]
 			var wantCert, wantKey []byte
 			if cliCert > 0 {
 				wantCert, wantKey = cliCerts[cliCert].CertPEM, cliCerts[cliCert].KeyPEM
